@@ -514,6 +514,11 @@ func changeContainer(r *kit.Run, c Case, v *osm.Change) {
 		r.Violation("roundtrip/"+shapeOf("osmChange", osmeq.Path(d)), fmt.Sprintf("%v: value != Unmarshal(Marshal(value)) at %s\nmarshalled: %s", c, d, clip(string(data), 600)), c)
 	}
 	checkNames(r, c, "osmChange", data, false)
+	var want flat
+	want.add(got.Create)
+	want.add(got.Modify)
+	want.add(got.Delete)
+	scanAgainst(r, c, "osmChange", data, &want)
 }
 
 func diffContainer(r *kit.Run, c Case, v *osm.Diff) {
@@ -532,6 +537,82 @@ func diffContainer(r *kit.Run, c Case, v *osm.Diff) {
 		r.Violation("roundtrip/"+shapeOf("diff", osmeq.Path(d)), fmt.Sprintf("%v: value != Unmarshal(Marshal(value)) at %s\nmarshalled: %s", c, d, clip(string(data), 600)), c)
 	}
 	checkNames(r, c, "diff", data, false)
+	var want flat
+	for _, a := range got.Actions {
+		want.add(a.OSM)
+		want.add(a.Old)
+		want.add(a.New)
+	}
+	// changesets stand next to the actions at the top level of a diff
+	want.o.Changesets = append(want.o.Changesets, got.Changesets...)
+	scanAgainst(r, c, "diff", data, &want)
+}
+
+// flat is the per-kind sequence of objects of a document, in document order.
+type flat struct {
+	bounds []*osm.Bounds
+	o      osm.OSM
+}
+
+func (f *flat) add(o *osm.OSM) {
+	if o == nil {
+		return
+	}
+	if o.Bounds != nil {
+		f.bounds = append(f.bounds, o.Bounds)
+	}
+	f.o.Nodes = append(f.o.Nodes, o.Nodes...)
+	f.o.Ways = append(f.o.Ways, o.Ways...)
+	f.o.Relations = append(f.o.Relations, o.Relations...)
+	f.o.Changesets = append(f.o.Changesets, o.Changesets...)
+	f.o.Notes = append(f.o.Notes, o.Notes...)
+	f.o.Users = append(f.o.Users, o.Users...)
+}
+
+// scanAgainst: the streaming scanner must read the marshalled text of a
+// Change or Diff to the same objects (per kind, in document order) as the
+// whole-document decoder did.
+func scanAgainst(r *kit.Run, c Case, kind string, data []byte, want *flat) {
+	sc := osmxml.New(context.Background(), bytes.NewReader(data))
+	var got flat
+	for sc.Scan() {
+		switch o := sc.Object().(type) {
+		case *osm.Bounds:
+			got.bounds = append(got.bounds, o)
+		case *osm.Node:
+			got.o.Nodes = append(got.o.Nodes, o)
+		case *osm.Way:
+			got.o.Ways = append(got.o.Ways, o)
+		case *osm.Relation:
+			got.o.Relations = append(got.o.Relations, o)
+		case *osm.Changeset:
+			got.o.Changesets = append(got.o.Changesets, o)
+		case *osm.Note:
+			got.o.Notes = append(got.o.Notes, o)
+		case *osm.User:
+			got.o.Users = append(got.o.Users, o)
+		default:
+			r.Violation("scan/"+kind+":unexpected-object", fmt.Sprintf("%v: scanner yielded %T", c, o), c)
+		}
+	}
+	sc.Close()
+	if err := sc.Err(); err != nil && err != osm.ErrScannerClosed && err != io.EOF {
+		r.Violation("scan-error/"+kind, fmt.Sprintf("%v: %v", c, err), c)
+		return
+	}
+	if len(got.bounds) != len(want.bounds) {
+		r.Violation("scan/"+kind+":bounds-count", fmt.Sprintf("%v: scanner yielded %d bounds, whole-document decode has %d\nmarshalled: %s", c, len(got.bounds), len(want.bounds), clip(string(data), 600)), c)
+		return
+	}
+	for i := range got.bounds {
+		if d := osmeq.Diff(want.bounds[i], got.bounds[i]); d != "" {
+			r.Violation("scan/"+kind+":bounds", fmt.Sprintf("%v: bounds %d differ at %s", c, i, d), c)
+			return
+		}
+	}
+	if d := osmeq.Diff(&want.o, &got.o); d != "" {
+		r.Violation("scan/"+shapeOf(kind, osmeq.Path(d)), fmt.Sprintf("%v: whole-document decode != streaming scan of the marshalled text at %s\nmarshalled: %s", c, d, clip(string(data), 600)), c)
+	}
 }
 
 // checkNames tokenises the marshalled text (raw tokens: no namespace or name
